@@ -25,7 +25,7 @@ pub mod testutils;
 
 pub use buf::{Buf, De, MDefault, Rd, Ser};
 pub use types::{Address, Bytes, BytesN, String, Symbol};
-pub use val::{ConstructorArgs, ConversionError, Error, FromVal, IntoVal, Topics, TryFromVal, TryIntoVal, Val};
+pub use val::{ConstructorArgs, ConversionError, Error, FromVal, IntoVal, InvokeError, Topics, TryFromVal, TryIntoVal, Val};
 pub use val::{T_ADDR, T_BOOL, T_BYTES, T_I128, T_SER, T_STR, T_SYM, T_U128, T_U32, T_U64, T_VOID};
 pub use vecm::{Vec, VecIter};
 pub use world::{Deployer, DeployerWithAddress, Env, Events, Instance, Ledger, Persistent, Storage, Temporary};
@@ -58,4 +58,16 @@ macro_rules! assert_with_error {
             $crate::panic_with_error!($e, $err)
         }
     }};
+}
+
+/// `log!` is a no-op in the model (diagnostics are not observable behaviour).
+#[macro_export]
+macro_rules! log {
+    ($($t:tt)*) => {{}};
+}
+#[macro_export]
+macro_rules! bytes {
+    ($e:expr, $x:literal) => {
+        $crate::Bytes::from_slice($e, &$crate::model::u128_be_trim($x as u128))
+    };
 }
